@@ -1,7 +1,8 @@
 import ScriggoV.Drv.Util
 import ScriggoV.Model.WriterM
+import ScriggoV.Model.TemplateChunks
 namespace ScriggoV.Drv.C13
-open ScriggoV ScriggoV.WriterM
+open ScriggoV ScriggoV.WriterM ScriggoV.TemplateChunks
 
 def retName : Ret → String
   | .ok => "ok" | .writeErr => "writeErr" | .otherErr => "otherErr"
@@ -13,6 +14,25 @@ def parseChunks : List String → Option (List Bytes)
     let r ← parseChunks t
     pure (c :: r)
 
+def parseItem (w : String) : Option Item := do
+  let tag ← w.toList.head?
+  let b ← fromHex (String.ofList w.toList.tail)
+  match tag with
+  | 't' => some (.text b)
+  | 'h' => some (.showHtml b)
+  | 'q' => some (.showAttrQ b)
+  | 'u' => some (.showAttrU b)
+  | 'j' => some (.showJsStr b)
+  | 'c' => some (.showCssStr b)
+  | _ => none
+
+def parseItems : List String → Option (List Item)
+  | [] => some []
+  | w :: ws => do
+    let i ← parseItem w
+    let r ← parseItems ws
+    pure (i :: r)
+
 /-- `failat <k> <chunk>…` : run the checked program over these chunks against the writer that
 fails at call k; answer `ok <bytes accepted, concatenated> <calls> <ret>` -/
 def handle : List String → Option String
@@ -21,6 +41,10 @@ def handle : List String → Option String
     let cs ← parseChunks cs
     let t := run k (ofChunks cs) 0
     pure s!"ok {toHex t.accepted.flatten} {t.calls} {retName t.ret}"
+  | "tchunks" :: items => do
+    -- the Write sequence the model predicts for a straight-line template body
+    let items ← parseItems items
+    pure ("ok" ++ String.join ((allChunks items).map fun c => " " ++ toHex c))
   | _ => none
 
 end ScriggoV.Drv.C13
